@@ -349,6 +349,12 @@ type PreparedStatementFieldTracker struct {
 	// shared value that indicates number of param packet
 	paramsCounter int
 	columnsNum    uint16
+	// number of parameters announced in the response, 0 if it is not known
+	paramsNum uint16
+	// id of the statement and descriptions of its columns in the form they were sent to the client
+	stmtID         uint32
+	columnsCounter int
+	fields         []*ColumnDescription
 }
 
 // NewPreparedStatementFieldTracker create new PreparedStatementFieldTracker
@@ -357,6 +363,49 @@ func NewPreparedStatementFieldTracker(handler *Handler, columnNum uint16) Prepar
 		proxyHandler: handler,
 		columnsNum:   columnNum,
 	}
+}
+
+// newPreparedStatementFieldTracker create PreparedStatementFieldTracker that knows the number of definitions that follow
+// the response. With CLIENT_DEPRECATE_EOF the definition blocks aren't terminated with EOF packets, so their end
+// is found by counting
+func newPreparedStatementFieldTracker(handler *Handler, response *PrepareStatementResponse) *PreparedStatementFieldTracker {
+	return &PreparedStatementFieldTracker{
+		proxyHandler: handler,
+		columnsNum:   response.ColumnsNum,
+		paramsNum:    response.ParamsNum,
+		stmtID:       response.StatementID,
+	}
+}
+
+// countsDefinitions returns true if the end of a definition block has to be found by counting the definitions
+func (p *PreparedStatementFieldTracker) countsDefinitions() bool {
+	return !p.proxyHandler.expectEOFOnColumnDefinition()
+}
+
+// onParamsEnd chooses handler of the packet that follows the block of parameters definitions
+func (p *PreparedStatementFieldTracker) onParamsEnd() {
+	// if columns_num > 0 column definition block will follow
+	// https://dev.mysql.com/doc/internals/en/com-stmt-prepare-response.html
+	if p.columnsNum > 0 {
+		p.proxyHandler.setQueryHandler(p.ColumnsTrackHandler)
+	} else {
+		p.proxyHandler.setQueryHandler(p.proxyHandler.QueryResponseHandler)
+	}
+}
+
+// onColumnsEnd stores descriptions of the statement's columns and chooses handler of the packet that follows
+// the block of columns definitions
+func (p *PreparedStatementFieldTracker) onColumnsEnd() {
+	p.proxyHandler.protocolState.SetStatementFields(p.stmtID, p.fields)
+	// There are different behaviour for prepared statements processing for MariaDB and MySQL
+	// For MySQL, we should process PreparedStatements response and then
+	// switch QueryHandler to QueryResponseHandler on receiving Execute packet from client.
+	// For MariaDB we can receive Execute packet without finishing the Prepare packet response processing.
+	// (https://mariadb.com/kb/en/com_stmt_execute/#specific-1-statement-id-value)
+	// So we switch QueryHandler to QueryResponseHandler as data should be followed next
+	// It`s safe to switch QueryHandler to QueryResponseHandler here as in case of any new packet type received from client
+	// QueryHandler will be switched to the appropriate one from ProxyClient goroutine.
+	p.proxyHandler.setQueryHandler(p.proxyHandler.QueryResponseHandler)
 }
 
 // ParamsTrackHandler implements ResponseHandler to track prepare statement params
@@ -373,14 +422,7 @@ func (p *PreparedStatementFieldTracker) ParamsTrackHandler(ctx context.Context, 
 
 	if packet.IsEOF() {
 		p.proxyHandler.logger.Debugln("ParamsTrackHandler EOF", "column_num", p.columnsNum, "stmt_id", p.proxyHandler.protocolState.GetStmtID())
-
-		// if columns_num > 0 column definition block will follow
-		// https://dev.mysql.com/doc/internals/en/com-stmt-prepare-response.html
-		if p.columnsNum > 0 {
-			p.proxyHandler.setQueryHandler(p.ColumnsTrackHandler)
-		} else {
-			p.proxyHandler.setQueryHandler(p.proxyHandler.QueryResponseHandler)
-		}
+		p.onParamsEnd()
 
 		if _, err := clientConnection.Write(packet.Dump()); err != nil {
 			p.proxyHandler.logger.WithError(err).WithField(logging.FieldKeyEventCode, logging.EventCodeErrorNetworkWrite).
@@ -405,13 +447,17 @@ func (p *PreparedStatementFieldTracker) ParamsTrackHandler(ctx context.Context, 
 		}
 	}
 
+	p.paramsCounter++
+	// the handler of the next packet is chosen before the client sees this one
+	if p.countsDefinitions() && p.paramsNum > 0 && p.paramsCounter == int(p.paramsNum) {
+		p.onParamsEnd()
+	}
+
 	if _, err := clientConnection.Write(field.Dump()); err != nil {
 		p.proxyHandler.logger.WithError(err).WithField(logging.FieldKeyEventCode, logging.EventCodeErrorNetworkWrite).
 			Debugln("Can't proxy output")
 		return err
 	}
-
-	p.paramsCounter++
 	return nil
 }
 
@@ -419,15 +465,7 @@ func (p *PreparedStatementFieldTracker) ParamsTrackHandler(ctx context.Context, 
 func (p *PreparedStatementFieldTracker) ColumnsTrackHandler(ctx context.Context, packet *Packet, _, clientConnection net.Conn) error {
 	p.proxyHandler.logger.Debugln("Parse column ColumnDefinition")
 	if packet.IsEOF() {
-		// There are different behaviour for prepared statements processing for MariaDB and MySQL
-		// For MySQL, we should process PreparedStatements response and then
-		// switch QueryHandler to QueryResponseHandler on receiving Execute packet from client.
-		// For MariaDB we can receive Execute packet without finishing the Prepare packet response processing.
-		// (https://mariadb.com/kb/en/com_stmt_execute/#specific-1-statement-id-value)
-		// So we switch QueryHandler to QueryResponseHandler as data should be followed next
-		// It`s safe to switch QueryHandler to QueryResponseHandler here as in case of any new packet type received from client
-		// QueryHandler will be switched to the appropriate one from ProxyClient goroutine.
-		p.proxyHandler.setQueryHandler(p.proxyHandler.QueryResponseHandler)
+		p.onColumnsEnd()
 
 		if _, err := clientConnection.Write(packet.Dump()); err != nil {
 			p.proxyHandler.logger.WithError(err).WithField(logging.FieldKeyEventCode, logging.EventCodeErrorNetworkWrite).
@@ -445,7 +483,12 @@ func (p *PreparedStatementFieldTracker) ColumnsTrackHandler(ctx context.Context,
 	// updating field type according to DataType provided in schemaStore
 	updateFieldEncodedType(field, p.proxyHandler.setting.TableSchemaStore())
 
-	p.proxyHandler.protocolState.AddColumnDescription(field)
+	p.fields = append(p.fields, field)
+	p.columnsCounter++
+	// the handler of the next packet is chosen before the client sees this one
+	if p.countsDefinitions() && p.columnsNum > 0 && p.columnsCounter == int(p.columnsNum) {
+		p.onColumnsEnd()
+	}
 
 	if _, err := clientConnection.Write(field.Dump()); err != nil {
 		p.proxyHandler.logger.WithError(err).WithField(logging.FieldKeyEventCode, logging.EventCodeErrorNetworkWrite).
